@@ -187,6 +187,45 @@ def _eliminate_alias(fn, known):
     return 0
 
 
+def _evaluated_before_is_pure(expr, t):
+    """True when `t` occurs exactly once in expr and everything Python evaluates before that occurrence is side-effect free
+    (so an impure defining expression may be moved into its place without reordering effects)."""
+    uses = [n for n in ast.walk(expr) if isinstance(n, ast.Name) and n.id == t]
+    if len(uses) != 1:
+        return False
+    target = uses[0]
+
+    def contains(e):
+        return any(n is target for n in ast.walk(e))
+
+    def go(e):
+        if e is target:
+            return True
+        if isinstance(e, ast.Call):
+            seq = [e.func] + list(e.args) + [k.value for k in e.keywords]
+        elif isinstance(e, ast.Attribute):
+            seq = [e.value]
+        elif isinstance(e, ast.Subscript):
+            seq = [e.value, e.slice]
+        elif isinstance(e, ast.BinOp):
+            seq = [e.left, e.right]
+        elif isinstance(e, (ast.Tuple, ast.List)):
+            seq = list(e.elts)
+        elif isinstance(e, ast.JoinedStr):
+            seq = [v.value for v in e.values if isinstance(v, ast.FormattedValue)]
+        elif isinstance(e, ast.keyword):
+            seq = [e.value]
+        else:
+            return False          # conditional / boolean contexts: evaluation of the use is not unconditional
+        for x in seq:
+            if contains(x):
+                return go(x)
+            if not _is_pure(x):
+                return False
+        return False
+    return go(expr)
+
+
 def _inline_new_locals(fn, known, limit=None):
     """a local the reference function does not have, assigned exactly once to a side-effect-free expression whose operands are not
     re-bound afterwards, and read only in the statements that follow the assignment in its block, is substituted into its uses
@@ -212,7 +251,29 @@ def _inline_new_locals(fn, known, limit=None):
                 for i, st in enumerate(b):
                     if isinstance(st, ast.Assign) and len(st.targets) == 1 and isinstance(st.targets[0], ast.Name):
                         t = st.targets[0].id
-                        if t in known or t in nested_names or not _is_pure(st.value):
+                        if t in known or t in nested_names:
+                            continue
+                        if not _is_pure(st.value):
+                            # an impure value may still move into the *next* statement when it is read exactly once there and nothing
+                            # with an effect is evaluated before that read
+                            nxt = b[i + 1] if i + 1 < len(b) else None
+                            ev = getattr(nxt, "value", None) if isinstance(nxt, (ast.Assign, ast.Expr, ast.Return)) else None
+                            n_uses = sum(1 for n in ast.walk(fn) if isinstance(n, ast.Name) and n.id == t and isinstance(n.ctx, ast.Load))
+                            if stores.get(t) == 1 and ev is not None and n_uses == 1 and _evaluated_before_is_pure(ev, t) \
+                                    and not (isinstance(nxt, ast.Assign) and any(not _is_pure(tg) for tg in nxt.targets)):
+                                import copy
+                                val_ = st.value
+
+                                class S2(ast.NodeTransformer):
+                                    def visit_Name(self, n):
+                                        if n.id == t and isinstance(n.ctx, ast.Load):
+                                            return ast.copy_location(copy.deepcopy(val_), n)
+                                        return n
+                                S2().visit(nxt)
+                                del b[i]
+                                done += 1
+                                progress = True
+                                break
                             continue
                         rest = b[i + 1:]
                         uses_rest = [n for s2 in rest for n in ast.walk(s2) if isinstance(n, ast.Name) and n.id == t]
